@@ -1,6 +1,16 @@
 /* ring.c — correspondence harness for include/lockfree_ring_buffer.h (C16).
- * usage: ring <log2 size> <script>; ops: p<v> = trypush(v), o = trypop. */
+ * usage: ring <log2 size> <script>; ops: p<v> = trypush(v), o = trypop,
+ * P<v> = blocking push(v), O = blocking pop, z = size query.
+ * The blocking wrappers are logged as `call bpush v` / `ret bpush 1`, `call bpop` / `ret bpop v`
+ * (the model must know which function is running); Ring.drive shows them to the API-level
+ * monitor as ordinary `push` / `pop` operations that cannot fail.  Scripts must be deadlock-free
+ * (tools/specs_c16.py keeps them so by construction). */
 #include "common.h"
+/* make the wrappers' `cpu_relax()` visible in the log (a `relax` note attributed to the wrapper
+ * function) so that the model can check WHEN the wrapper decides the buffer is full / empty;
+ * rt/shim.h's scheduling hook (vr_relax = spin point) and the original primitive still run */
+#undef cpu_relax
+#define cpu_relax() (vr_note("relax"), vr_relax(), cpu_relax())
 #include "lockfree_ring_buffer.h"
 
 static lockfree_ring_buffer_t* rb;
@@ -12,6 +22,19 @@ static void do_op(int t, const char* op) {
     vr_note("call push %ld", v);
     int r = lockfree_ring_buffer_trypush(rb, (void*)v);
     vr_note("ret push %d", r);
+  } else if (op[0] == 'P') {
+    long v = atol(op + 1);
+    vr_note("call bpush %ld", v);
+    lockfree_ring_buffer_push(rb, (void*)v);
+    vr_note("ret bpush 1");
+  } else if (op[0] == 'O') {
+    vr_note("call bpop");
+    void* r = lockfree_ring_buffer_pop(rb);
+    vr_note("ret bpop %ld", (long)r);
+  } else if (op[0] == 'z') {
+    vr_note("call size");
+    size_t n = lockfree_ring_buffer_size(rb);
+    vr_note("ret size %lu", (unsigned long)n);
   } else {
     vr_note("call pop");
     void* r = lockfree_ring_buffer_trypop(rb);
